@@ -166,6 +166,24 @@ func c09Buffer(doc []byte, d c09Dest) (res c09Res) {
 	return c09Res{ok: true, snap: c09Snap(v)}
 }
 
+// the open findings of C05 about texts that are not JSON, as they show when the two modes are compared: a predicate
+// on the document and the destination only
+func c09KnownInvalid(doc []byte, stdValid bool, dest string, streamOK, bufOK bool) string {
+	if stdValid || (bytes.IndexByte(doc, '\\') < 0 && bytes.IndexByte(doc, 0) < 0) {
+		return ""
+	}
+	switch dest {
+	case "struct":
+		if bufOK && !streamOK {
+			return "StructKeyUnvalidated"
+		}
+		return "StreamStructKeyLenient"
+	case "raw":
+		return "StreamSkipScannerLenient"
+	}
+	return ""
+}
+
 // the chunkings of the quantifier for a document of n bytes
 func c09Chunkings(o *Out, n int, heavy bool) [][]int {
 	var res [][]int
@@ -308,6 +326,10 @@ func runC09(o *Out) {
 				o.count("stream_decodes", 1)
 				if got != whole && !reported {
 					reported = true
+					if cls := c09KnownInvalid(doc, stdValid, d.name, got.ok, whole.ok); cls != "" {
+						o.known(cls, fmt.Sprintf("%q into %s, cuts %v", ds, d.name, cuts))
+						continue
+					}
 					o.violation("C09", "Decoder.Decode depends on how the reader cuts the input", map[string]string{
 						"doc": clip(ds), "doc_hex": hx(doc), "dest": d.name, "cuts": fmt.Sprint(cuts), "one_piece": clip(whole.String()), "with_cuts": clip(got.String())})
 				}
@@ -343,6 +365,8 @@ func runC09(o *Out) {
 					// C05's SkipUnvalidated: the skip scanners behind RawMessage accept some invalid values in both modes;
 					// Unmarshal then rejects only because of what follows
 					o.known("RawSkipUnvalidated", fmt.Sprintf("%q into RawMessage", ds))
+				case c09KnownInvalid(doc, stdValid, d.name, whole.ok, buf.ok) != "":
+					o.known(c09KnownInvalid(doc, stdValid, d.name, whole.ok, buf.ok), fmt.Sprintf("%q into %s", ds, d.name))
 				case whole.ok && !buf.ok:
 					o.violation("C09", "Decoder.Decode accepts the beginning of an invalid text that neither Unmarshal nor encoding/json's Decoder accept", map[string]string{
 						"doc": clip(ds), "doc_hex": hx(doc), "dest": d.name, "stream": clip(whole.String())})
